@@ -78,86 +78,184 @@ def _branches_all(fnode: ast.AST) -> List[Tuple[Optional[ast.AST], List[ast.stmt
 
 
 def check_eval(ctx) -> None:
+    """GPR.eval / GPR._eval_gpr evaluated by the analyser's interpreter over stand-in rule trees and compared, for
+    every knock-out subset, with the and/or truth table of the tree. The trees cover: one gene, flat and nested
+    and/or with two and three operands, Expression and GPR wrappers, an empty rule, an operator that is neither and
+    nor or, and a node kind that is no rule node. No shape of the code is prescribed."""
+    import itertools
+
+    from ..interp import Interp
+
     prog = ctx.prog
     fn = prog.func("cobra.core.gene", "GPR._eval_gpr")
-    params = [p for p in fn.pos_params if p != fn.self_name]
-    if len(params) < 2:
-        raise AnalysisError("GPR._eval_gpr: unexpected signature")
-    expr_p, ko_p = params[0], params[1]
-    seen: Dict[str, bool] = {}
-    for test, body in _branches(fn.node.body):
-        got = _isinstance_classes(test) if test is not None else None
-        if got and got[0] == expr_p:
-            classes = got[1]
-            if "Name" in classes:
-                rets = [s for s in body if isinstance(s, ast.Return)]
-                ok = bool(rets) and isinstance(rets[0].value, ast.Compare) and len(rets[0].value.ops) == 1 and isinstance(rets[0].value.ops[0], ast.NotIn) and norm(rets[0].value.left) == f"{expr_p}.id" and norm(rets[0].value.comparators[0]) == ko_p
-                seen["name"] = True
-                if ok:
-                    ctx.ok("C07.eval", fn, rets[0], "a gene is true iff its id is not in the knock-out set")
-                else:
-                    ctx.bad("C07.eval", fn, rets[0] if rets else test, "a gene name is no longer evaluated as `id not in knockouts`")
-            elif "BoolOp" in classes:
-                seen["boolop"] = True
-                for t2, b2 in _branches(body):
-                    g2 = _isinstance_classes(t2) if t2 is not None else None
-                    if g2 is None:
-                        if t2 is None:
-                            if any(isinstance(s, ast.Raise) for s in b2):
-                                ctx.ok("C07.eval", fn, b2[0], "unknown operators raise", nontrivial=False)
-                            else:
-                                ctx.bad("C07.eval", fn, b2[0], "an operator other than and/or is silently accepted")
-                        continue
-                    rets = [s for s in b2 if isinstance(s, ast.Return)]
-                    for opname, want in (("Or", "any"), ("And", "all")):
-                        if opname in g2[1]:
-                            seen[opname] = True
-                            v = rets[0].value if rets else None
-                            ok = (
-                                isinstance(v, ast.Call) and isinstance(v.func, ast.Name) and v.func.id == want and v.args
-                                and isinstance(v.args[0], (ast.GeneratorExp, ast.ListComp))
-                                and norm(v.args[0].generators[0].iter) == f"{expr_p}.values"
-                                and not v.args[0].generators[0].ifs
-                                and isinstance(v.args[0].elt, ast.Call) and norm(v.args[0].elt.func).endswith("_eval_gpr")
-                                and len(v.args[0].elt.args) >= 2 and norm(v.args[0].elt.args[1]) == ko_p
-                            )
-                            if ok:
-                                ctx.ok("C07.eval", fn, rets[0], f"{opname} -> {want}() over all values, same knock-out set")
-                            else:
-                                ctx.bad("C07.eval", fn, rets[0] if rets else t2, f"{opname} is not evaluated as {want}(...) over all of the operator's values with the same knock-out set")
-            elif classes & {"Expression", "GPR", "Module"}:
-                seen["wrapper"] = True
-                txt = " ".join(" ".join(ast.unparse(s).split()) for s in body)
-                if "return True" in txt and "_eval_gpr" in txt and f"{expr_p}.body" in txt:
-                    ctx.ok("C07.eval", fn, body[0], "wrapper nodes: empty body is true, otherwise the body is evaluated")
-                else:
-                    ctx.bad("C07.eval", fn, body[0], "a rule wrapper (Expression/GPR) is not evaluated through its body with `empty -> True`")
-        elif test is not None and norm(test) in (f"{expr_p} is None", f"not {expr_p}"):
-            rets = [s for s in body if isinstance(s, ast.Return)]
-            if rets and isinstance(rets[0].value, ast.Constant) and rets[0].value.value is True:
-                ctx.ok("C07.eval", fn, rets[0], "no rule -> true", nontrivial=False)
-            else:
-                ctx.bad("C07.eval", fn, test, "an absent rule does not evaluate to True (a reaction without a rule must never be affected)")
-        elif test is None:
-            if any(isinstance(s, ast.Raise) for s in body):
-                ctx.ok("C07.eval", fn, body[0], "anything else raises", nontrivial=False)
-            else:
-                ctx.bad("C07.eval", fn, body[0], "unsupported node kinds are silently accepted")
-    for need in ("name", "boolop", "Or", "And", "wrapper"):
-        if need not in seen:
-            ctx.bad("C07.eval", fn, fn.node, f"_eval_gpr has no case for {need}")
-    # GPR.eval: defaults, delegates with the caller's set
     ev = prog.func("cobra.core.gene", "GPR.eval")
-    calls = [n for n in walk_local(ev.node) if isinstance(n, ast.Call) and norm(n.func).endswith("_eval_gpr")]
-    if calls and any(norm(k.value) == "knockouts" for c in calls for k in c.keywords) or any(len(c.args) > 1 and norm(c.args[1]) == "knockouts" for c in calls):
-        ctx.ok("C07.eval", ev, calls[0], "GPR.eval hands the caller's knock-out set to the evaluator")
+
+    class _Node:
+        pass
+
+    class NameN(_Node):
+        kind = "Name"
+
+        def __init__(self, id_):
+            self.id = id_
+
+    class AndN(_Node):
+        kind = "And"
+
+    class OrN(_Node):
+        kind = "Or"
+
+    class BitXorN(_Node):
+        kind = "BitXor"
+
+    class BoolOpN(_Node):
+        kind = "BoolOp"
+
+        def __init__(self, op, values):
+            self.op, self.values = op, list(values)
+
+    class ExprN(_Node):
+        kind = "Expression"
+
+        def __init__(self, body):
+            self.body = body
+
+    class UnaryN(_Node):
+        kind = "UnaryOp"
+
+        def __init__(self, operand):
+            self.operand = operand
+
+    class GPRN(_Node):
+        kind = "GPR"
+
+        def __init__(self, body):
+            self.body = body
+            self._genes = set()
+            self._it = None
+
+        def _eval_gpr(self, expr, knockouts):
+            return self._it.call(fn, [expr, knockouts], {}, selfobj=self)
+
+        def eval(self, knockouts=None):
+            return self._it.call(ev, [] if knockouts is None else [knockouts], {}, selfobj=self)
+
+    def _isinstance(it_, e, c, args, kwargs):
+        v = args[0]
+        names = [norm(x).split(".")[-1] for x in (c.args[1].elts if isinstance(c.args[1], ast.Tuple) else [c.args[1]])]
+        if isinstance(v, _Node):
+            return v.kind in names or (v.kind == "Expression" and "Module" in names and False)
+        if v is None or isinstance(v, (str, int, float, bool, list, dict, tuple, set, frozenset)):
+            builtin = {"str": str, "int": int, "float": float, "bool": bool, "list": list, "dict": dict, "tuple": tuple, "set": set, "frozenset": frozenset}
+            return isinstance(v, tuple(builtin[n] for n in names if n in builtin))
+        raise Unknown("isinstance on a value outside the rule-tree domain")
+
+    def truth(t, ko) -> bool:
+        if t is None:
+            return True
+        if isinstance(t, (ExprN, GPRN)):
+            return truth(t.body, ko)
+        if isinstance(t, NameN):
+            return t.id not in ko
+        vals = [truth(v, ko) for v in t.values]
+        return any(vals) if isinstance(t.op, OrN) else all(vals)
+
+    def show(t) -> str:
+        if t is None:
+            return "<empty>"
+        if isinstance(t, ExprN):
+            return f"Expression({show(t.body)})"
+        if isinstance(t, GPRN):
+            return f"GPR({show(t.body)})"
+        if isinstance(t, NameN):
+            return t.id
+        if isinstance(t, UnaryN):
+            return f"not {show(t.operand)}"
+        j = {"And": " and ", "Or": " or "}.get(t.op.kind, f" <{t.op.kind}> ")
+        return "(" + j.join(show(v) for v in t.values) + ")"
+
+    def run(tree, ko, via_eval=True, default=False):
+        it = Interp(prog, (_Node,), [], {"isinstance": _isinstance}, globals_={"str": str, "list": list, "set": set})
+        it.missing_attr_raises = True
+        g = tree if isinstance(tree, GPRN) and via_eval else GPRN(tree)
+        g._it = it
+        for n in _walk(tree):
+            if isinstance(n, GPRN):
+                n._it = it
+        try:
+            if via_eval:
+                return ("value", g.eval(None if default else set(ko)))
+            return ("value", g._eval_gpr(tree, set(ko)))
+        except EvalRaise as exc:
+            return ("raise", exc.exc_type)
+        except Unknown as exc:
+            raise AnalysisError(f"C07.eval: the rule evaluator cannot be evaluated on {show(tree)} with knock-outs {sorted(ko)}: {exc}")
+
+    def _walk(t):
+        if t is None:
+            return
+        yield t
+        if isinstance(t, (ExprN, GPRN)):
+            yield from _walk(t.body)
+        elif isinstance(t, BoolOpN):
+            for v in t.values:
+                yield from _walk(v)
+        elif isinstance(t, UnaryN):
+            yield from _walk(t.operand)
+
+    a, b, c, d = (NameN(x) for x in "abcd")
+    AND = lambda *v: BoolOpN(AndN(), v)
+    OR = lambda *v: BoolOpN(OrN(), v)
+    families = {
+        "a gene is true iff its id is not in the knock-out set": [a],
+        "Or -> any over all operands": [OR(a, b), OR(a, b, c), OR(c, a)],
+        "And -> all over all operands": [AND(a, b), AND(a, b, c), AND(c, a)],
+        "nested rules are evaluated recursively with the same knock-out set": [AND(a, OR(b, c)), OR(a, AND(b, c)), OR(AND(a, b), c), AND(OR(a, b), OR(b, c)), OR(AND(a, b), AND(c, d)), AND(OR(a, AND(b, c)), d)],
+        "wrapper nodes are evaluated through their body": [ExprN(a), ExprN(AND(a, b)), GPRN(OR(a, b)), GPRN(ExprN(AND(a, OR(b, c))))],
+    }
+    genes = ["a", "b", "c", "d", "zz"]
+    subsets = [set(x) for r in range(len(genes) + 1) for x in itertools.combinations(genes, r)]
+    n_cases = 0
+    for label, trees in families.items():
+        bad = None
+        for t in trees:
+            for ko in subsets:
+                for via_eval in (True, False):
+                    n_cases += 1
+                    got = run(t, ko, via_eval)
+                    want = ("value", truth(t, ko))
+                    if got != want and not (got[0] == "value" and got[1] is want[1]):
+                        bad = (t, ko, via_eval, got, want)
+                        break
+                if bad:
+                    break
+            if bad:
+                break
+        if bad:
+            t, ko, via_eval, got, want = bad
+            what = f"raises {got[1]}" if got[0] == "raise" else f"gives {got[1]!r}"
+            ctx.bad("C07.eval", fn if not via_eval or True else ev, fn.node, f"rule `{show(t)}` with knock-outs {sorted(ko)} {what} through {'GPR.eval' if via_eval else '_eval_gpr'}, the and/or truth table gives {want[1]} ({label})")
+        else:
+            ctx.ok("C07.eval", fn, fn.node, f"{label} ({len(trees)} trees x {len(subsets)} knock-out sets, evaluated)")
+    # empty rules and the default argument
+    got = [run(None, set(), True), run(None, {"a"}, True), run(ExprN(None), {"a"}, False), run(None, {"a"}, False), run(GPRN(None), {"a"}, False)]
+    if all(g == ("value", True) for g in got):
+        ctx.ok("C07.eval", ev, "empty rule", "an empty rule evaluates to True (evaluated: GPR.eval and _eval_gpr on an empty body / None / empty wrapper)", nontrivial=False)
     else:
-        ctx.bad("C07.eval", ev, ev.node, "GPR.eval does not evaluate the rule with the given knock-out set")
-    rets = [n for n in walk_local(ev.node) if isinstance(n, ast.Return) and isinstance(n.value, ast.Constant)]
-    if all(r.value.value is True for r in rets):
-        ctx.ok("C07.eval", ev, "empty rule", "an empty rule evaluates to True", nontrivial=False)
+        ctx.bad("C07.eval", ev, ev.node, f"an empty rule does not evaluate to True (a reaction without a rule must never be affected): got {got}")
+    got = [run(t, set(), True, default=True) for t in (a, AND(a, b), OR(a, b))]
+    if all(g == ("value", True) for g in got):
+        ctx.ok("C07.eval", ev, "default", "without an argument nothing is knocked out", nontrivial=False)
     else:
-        ctx.bad("C07.eval", ev, rets[0], "an empty rule does not evaluate to True")
+        ctx.bad("C07.eval", ev, ev.node, f"GPR.eval() without knock-outs does not evaluate every rule to True: got {got}")
+    # anything that is no and/or rule raises instead of yielding a truth value
+    for label, t in (("an operator other than and/or", BoolOpN(BitXorN(), [a, b])), ("a node that is no rule node", UnaryN(a)), ("a node that is no rule node", AND(a, UnaryN(b)))):
+        got = run(t, set(), False)
+        if got[0] == "raise":
+            ctx.ok("C07.eval", fn, f"raise {show(t)}", f"{label} raises ({got[1]})", nontrivial=False)
+        else:
+            ctx.bad("C07.eval", fn, fn.node, f"{label} (`{show(t)}`) is silently evaluated to {got[1]!r} instead of being rejected")
+    ctx.note(f"C07.eval: {n_cases} (tree, knock-out set, entry point) cases evaluated")
 
 
 # ----------------------------------------------------------------------------------------- guard
